@@ -141,6 +141,16 @@ func (w *World) fillLint(li *LintInfo, arg ssa.Value) {
 	}
 	if v := get("Description"); v != nil {
 		li.Description, li.DescOK = constString(v)
+		if !li.DescOK {
+			// fmt.Sprintf with a constant format that starts with literal text is non-empty
+			if c, ok := v.(*ssa.Call); ok {
+				if callee := c.Call.StaticCallee(); callee != nil && callee.String() == "fmt.Sprintf" && len(c.Call.Args) > 0 {
+					if f, ok := constString(c.Call.Args[0]); ok && f != "" && f[0] != '%' {
+						li.Description, li.DescOK = f, true
+					}
+				}
+			}
+		}
 	}
 	if v := get("Citation"); v != nil {
 		li.Citation, _ = constString(v)
